@@ -21,6 +21,8 @@ mod gen_session;
 mod gen_names;
 #[path = "../c05_digits.rs"]
 mod c05_digits;
+#[path = "../c11_expr.rs"]
+mod c11_expr;
 
 fn main() {
     let args: Vec<String> = std::env::args().collect();
@@ -46,6 +48,8 @@ fn main() {
         "gen-c15" => gen_session::run(&opts),
         "c07" => gen_names::run(&opts),
         "c05" => c05_digits::run(&opts),
+        "c11" => c11_expr::run(&opts),
+        "c11-one" => c11_expr::one(&opts),
         "c05-one" => c05_digits::one(&opts),
         "c07-one" => gen_names::one(&opts),
         "encode" => {
